@@ -47,6 +47,8 @@ def variants(prog, i):
     printer.STYLE.update(parens=False, layout=True)
     out.append(("relayout", printer.program(prog)))
     printer.STYLE.update(layout=False)
+    # no indentation at all: a line that starts with ( [ or . must not continue the line before it
+    out.append(("flushleft", "\n".join(l.lstrip() for l in printer.program(prog).split("\n"))))
     out.append(("annotate", printer.program(transform.annotate_prog(prog))))
     return out
 
